@@ -283,11 +283,13 @@ func checkIP(i uint64) (bool, error) {
 	if got := iputil.ToStringInt(v); got != text {
 		return true, fmt.Errorf("ToStringInt(%#x) = %q, net.IP gives %q", u, got, text)
 	}
-	if got := iputil.ToStringFrInt(v); got != text {
-		return true, fmt.Errorf("ToStringFrInt(%#x) = %q, net.IP gives %q", u, got, text)
-	}
-	if got := iputil.ToString(want); got != text {
-		return true, fmt.Errorf("ToString(%v) = %q, net.IP gives %q", want, got, text)
+	if u&0xff == u>>24 { // the two aliases of ToStringInt: on the 2^24 addresses a.b.c.a (cost of the 2^32 sweep)
+		if got := iputil.ToStringFrInt(v); got != text {
+			return true, fmt.Errorf("ToStringFrInt(%#x) = %q, net.IP gives %q", u, got, text)
+		}
+		if got := iputil.ToString(want); got != text {
+			return true, fmt.Errorf("ToString(%v) = %q, net.IP gives %q", want, got, text)
+		}
 	}
 	back := iputil.ToBytes(text)
 	if len(back) != 4 || back[0] != want[0] || back[1] != want[1] || back[2] != want[2] || back[3] != want[3] {
@@ -297,7 +299,7 @@ func checkIP(i uint64) (bool, error) {
 }
 
 var sweepIP = pbt.RegisterSweep(pbt.Sweep{Prop: "C15", Name: "iputil-all-addresses",
-	Rule: "all 2^32 IPv4 addresses (thorough tier): ToBytesFrInt big-endian, ToInt inverse, ToStringInt/ToStringFrInt/ToString == net.IP.String(), ToBytes(ToString(b)) == b",
+	Rule: "all 2^32 IPv4 addresses (thorough tier): ToBytesFrInt big-endian, ToInt inverse, ToStringInt == net.IP.String(), ToBytes(that text) == b; the aliases ToStringFrInt(i) and ToString(bytes) on the 2^24 addresses a.b.c.a",
 	N:    1 << 32, Run: checkIP, Show: func(i uint64) interface{} { return net.IP(binary.BigEndian.AppendUint32(nil, uint32(i))).String() }})
 
 // quick tier: 2^20 addresses spread by an odd multiplier, then every a.b.0.0 and a.b.255.255
